@@ -21,8 +21,22 @@ package udphop
 //           it (their loss is allowed), the reader catches up, and whatever arrives afterwards on an open socket of
 //           {prev,cur} must be taken and come out of ReadFrom in order: an overflow costs the packets that met the
 //           full queue and nothing else.
+//           Server address: the hop address of a history is "<host form>:<ports>" with the host written as an IPv4
+//           literal, a bracketed IPv6 literal, an IPv4-mapped IPv6 literal, a zone-scoped literal or a host name answered
+//           by an in-memory DNS server (net.DefaultResolver is pointed at it while the harness resolves; A only, AAAA only,
+//           both).  Every WriteTo that reaches a fake socket records its full destination: the port, whether the IP is
+//           the server's (net.IP.Equal with what net.ResolveIPAddr returns for the same host, zone not contradicting it)
+//           and an index into the table of distinct (IP bytes, zone) destinations seen, which the Coq side compares with
+//           the model's Addrs[addrIndex].  conn.Addrs is compared with {server IP : port | port in the set} as well.
+//           Datagrams handed to the receivers come from the server: source = (server IP, the port that was the conn's target
+//           while the receiving socket was the current one): the server answers from the port it was spoken to on, so what
+//           arrives on the previous socket after a hop carries the PREVIOUS target port, and must be delivered all the same.
+//   k=addr  ResolveUDPHopAddr / addrs() alone on "<host form>:<ports>", malformed hosts and port expressions included:
+//           error class, IP (Equal to the reference resolution and to the address the generator wrote down
+//           independently), Ports = the set in ascending order, addrs() = exactly one (server IP, port) per port.
 
 import (
+	"context"
 	"encoding/binary"
 	"encoding/hex"
 	"encoding/json"
@@ -32,7 +46,9 @@ import (
 	"net"
 	"os"
 	"strconv"
+	"strings"
 	"sync"
+	"sync/atomic"
 	"testing"
 	"testing/synctest"
 	"time"
@@ -68,6 +84,13 @@ type c19Case struct {
 	CErr   []int   `json:"cerr"` // ids of the sockets whose Close() returns an error (the socket still gets closed)
 	SErr   []int   `json:"serr"` // ordinals (over the whole history) of the sockets' Set* calls that return an error
 	Blk    bool    `json:"blk"`  // park one more ReadFrom right before the final Close
+	// server address (hop and addr cases).  A hop case without "hp" is an old replay file: 127.0.0.1
+	HP     *string                 `json:"hp"`     // host part as written, brackets included
+	Host   string                  `json:"host"`   // the bare host the generator meant (what SplitHostPort must give back)
+	DNS    map[string][2][]string  `json:"dns"`    // name (lower case, trailing dot) -> A records, AAAA records
+	Exp    []string                `json:"exp"`    // hex of the addresses the host stands for, written down by the generator (any of them)
+	ExpErr string                  `json:"experr"` // what the generator expects of the host part: ok | split | resolve | ref (= ask the reference)
+	Form   string                  `json:"form"`
 }
 
 func TestVerifC19(t *testing.T) {
@@ -97,6 +120,8 @@ func TestVerifC19(t *testing.T) {
 			c19Ival(c, res)
 		case "hop":
 			c19Hop(t, c, res)
+		case "addr":
+			c19Addr(c, res)
 		default:
 			t.Fatalf("unknown case kind %q", c.K)
 		}
@@ -386,6 +411,359 @@ func c19Ival(c c19Case, res map[string]any) {
 	res["why"] = why
 }
 
+// ------------------------------------------------------------------ server address
+
+// in-memory DNS server behind net.Resolver.Dial: answers A / AAAA questions from a table, NXDOMAIN for every other name
+type c19DNSConn struct {
+	recs map[string][2][]string
+	resp chan []byte
+}
+
+func (c *c19DNSConn) Write(q []byte) (int, error) {
+	if len(q) < 12 {
+		return len(q), nil
+	}
+	pos := 12
+	var labels []string
+	for pos < len(q) && q[pos] != 0 {
+		l := int(q[pos])
+		if l >= 64 || pos+1+l > len(q) {
+			return len(q), nil
+		}
+		labels = append(labels, string(q[pos+1:pos+1+l]))
+		pos += 1 + l
+	}
+	if pos+5 > len(q) {
+		return len(q), nil
+	}
+	qend := pos + 5
+	qtype := binary.BigEndian.Uint16(q[pos+1:])
+	name := strings.ToLower(strings.Join(labels, ".")) + "."
+	r := make([]byte, 0, 512)
+	r = append(r, q[0], q[1], 0x81, 0x80, 0, 1, 0, 0, 0, 0, 0, 0)
+	r = append(r, q[12:qend]...)
+	rec, ok := c.recs[name]
+	if !ok {
+		r[3] = 0x83
+	} else {
+		var ips []string
+		if qtype == 1 {
+			ips = rec[0]
+		} else if qtype == 28 {
+			ips = rec[1]
+		}
+		n := 0
+		for _, s := range ips {
+			ip := net.ParseIP(s)
+			b := []byte(ip.To16())
+			if qtype == 1 {
+				b = []byte(ip.To4())
+			}
+			if b == nil {
+				continue
+			}
+			r = append(r, 0xc0, 12, byte(qtype>>8), byte(qtype), 0, 1, 0, 0, 0, 60, 0, byte(len(b)))
+			r = append(r, b...)
+			n++
+		}
+		binary.BigEndian.PutUint16(r[6:], uint16(n))
+	}
+	select {
+	case c.resp <- r:
+	default:
+	}
+	return len(q), nil
+}
+
+func (c *c19DNSConn) Read(b []byte) (int, error) {
+	select {
+	case r := <-c.resp:
+		return copy(b, r), nil
+	case <-time.After(5 * time.Second):
+		return 0, errors.New("fake dns: no query to answer")
+	}
+}
+func (c *c19DNSConn) ReadFrom(b []byte) (int, net.Addr, error) {
+	n, err := c.Read(b)
+	return n, &net.UDPAddr{}, err
+}
+func (c *c19DNSConn) WriteTo(b []byte, _ net.Addr) (int, error) { return c.Write(b) }
+func (c *c19DNSConn) Close() error                              { return nil }
+func (c *c19DNSConn) LocalAddr() net.Addr                       { return &net.UDPAddr{} }
+func (c *c19DNSConn) RemoteAddr() net.Addr                      { return &net.UDPAddr{} }
+func (c *c19DNSConn) SetDeadline(time.Time) error               { return nil }
+func (c *c19DNSConn) SetReadDeadline(time.Time) error           { return nil }
+func (c *c19DNSConn) SetWriteDeadline(time.Time) error          { return nil }
+
+// run f with net.DefaultResolver pointed at the in-memory server (names not in the table do not exist)
+func c19WithDNS(recs map[string][2][]string, f func()) {
+	old := net.DefaultResolver
+	net.DefaultResolver = &net.Resolver{PreferGo: true, Dial: func(ctx context.Context, network, address string) (net.Conn, error) {
+		return &c19DNSConn{recs: recs, resp: make(chan []byte, 4)}, nil
+	}}
+	defer func() { net.DefaultResolver = old }()
+	f()
+}
+
+type c19Srv struct {
+	full    string // the hop address string handed to ResolveUDPHopAddr
+	addr    *UDPHopAddr
+	errk    string // "" | split | resolve | port | other : class of ResolveUDPHopAddr's error
+	refk    string // "" | split | resolve : class of the reference's error (net.SplitHostPort, then net.ResolveIPAddr on the host)
+	refHost string
+	refIP   net.IP // the server IP "as resolved"
+	refZone string
+	panicked bool
+	pmsg    string
+}
+
+func c19ErrClass(err error) string {
+	if err == nil {
+		return ""
+	}
+	var pe InvalidPortError
+	if errors.As(err, &pe) {
+		return "port"
+	}
+	var ae *net.AddrError
+	if errors.As(err, &ae) {
+		return "split"
+	}
+	var de *net.DNSError
+	if errors.As(err, &de) {
+		return "resolve"
+	}
+	return "other"
+}
+
+// resolve "<hp>:<ports>" twice under the same in-memory DNS: by the reference (SplitHostPort + ResolveIPAddr, the two library
+// calls the model takes as given) and by ResolveUDPHopAddr
+func c19Resolve(hp, ports string, dns map[string][2][]string) *c19Srv {
+	r := &c19Srv{full: hp + ":" + ports}
+	c19WithDNS(dns, func() {
+		h, _, err := net.SplitHostPort(r.full)
+		if err != nil {
+			r.refk = "split"
+		} else {
+			r.refHost = h
+			ra, err := net.ResolveIPAddr("ip", h)
+			if err != nil {
+				r.refk = "resolve"
+			} else {
+				r.refIP, r.refZone = ra.IP, ra.Zone
+			}
+		}
+		r.panicked, r.pmsg = vCatch(func() {
+			a, err := ResolveUDPHopAddr(r.full)
+			r.addr, r.errk = a, c19ErrClass(err)
+			if err == nil && a == nil {
+				r.errk = "other"
+			}
+		})
+	})
+	return r
+}
+
+func c19ZoneOK(z, ref string) bool { return z == "" || z == ref }
+
+// one (IP bytes, zone) table per case: the distinct destinations seen
+type c19Dests struct {
+	tab [][2]string
+	idx map[[2]string]int
+}
+
+func (d *c19Dests) index(ip net.IP, zone string) int {
+	if d.idx == nil {
+		d.idx = map[[2]string]int{}
+	}
+	k := [2]string{hex.EncodeToString(ip), hex.EncodeToString([]byte(zone))}
+	if i, ok := d.idx[k]; ok {
+		return i
+	}
+	d.idx[k] = len(d.tab)
+	d.tab = append(d.tab, k)
+	return len(d.tab) - 1
+}
+
+func (d *c19Dests) table() [][2]string {
+	if d.tab == nil {
+		return [][2]string{}
+	}
+	return d.tab
+}
+
+// the list must be exactly one *net.UDPAddr (server IP, port) per port of ports, in that order; dests collects what is there
+func c19CheckAddrList(as []net.Addr, ports []uint16, ip net.IP, zone string, dests *c19Dests) (bool, string) {
+	ok, why := true, ""
+	if len(as) != len(ports) {
+		ok, why = false, "address list has "+strconv.Itoa(len(as))+" entries for "+strconv.Itoa(len(ports))+" ports"
+	}
+	for j, a := range as {
+		ua, isUDP := a.(*net.UDPAddr)
+		if !isUDP || ua == nil {
+			if ok {
+				ok, why = false, "address list entry is not a *net.UDPAddr"
+			}
+			continue
+		}
+		if dests != nil {
+			dests.index(ua.IP, ua.Zone)
+		}
+		if !ok {
+			continue
+		}
+		if !ua.IP.Equal(ip) {
+			// (addresses are kept out of the message: one kind of failure, one message; the entry is in the table of destinations)
+			ok, why = false, "address list entry for port "+strconv.Itoa(ua.Port)+" does not carry the server IP"
+		} else if !c19ZoneOK(ua.Zone, zone) {
+			ok, why = false, "address list entry carries a zone the server address does not have"
+		} else if j < len(ports) && ua.Port != int(ports[j]) {
+			ok, why = false, "address list entry "+strconv.Itoa(j)+" has port "+strconv.Itoa(ua.Port)+", the set's next port is "+strconv.Itoa(int(ports[j]))
+		}
+	}
+	return ok, why
+}
+
+// verdict on ResolveUDPHopAddr's result (implementation alone): error class, IP, PortStr, Ports, addrs()
+func c19SrvVerdict(c c19Case, r *c19Srv, dests *c19Dests) (bool, string) {
+	if r.panicked {
+		return false, "panic: " + r.pmsg
+	}
+	ref, valid := c19Ref(c.Ports)
+	want := r.refk
+	if want == "" && !valid {
+		want = "port"
+	}
+	if r.errk != want {
+		if want == "" {
+			return false, "ResolveUDPHopAddr rejects a well-formed hop address (" + r.errk + " error)"
+		}
+		if r.errk == "" {
+			return false, "ResolveUDPHopAddr accepts a hop address it must reject (" + want + " error expected)"
+		}
+		return false, "ResolveUDPHopAddr fails with a " + r.errk + " error where a " + want + " error is due"
+	}
+	if want != "" {
+		return true, ""
+	}
+	a := r.addr
+	if !a.IP.Equal(r.refIP) {
+		return false, "ResolveUDPHopAddr's IP is not the resolved server IP"
+	}
+	// (the addresses the generator wrote down for the host validate the reference, see c19Premise: where the reference agrees with
+	// them, an IP equal to the reference's is one of them)
+	if a.PortStr != c.Ports {
+		return false, "PortStr is not the port expression"
+	}
+	j := 0
+	for p := 0; p < 65536; p++ {
+		if ref[p] {
+			if j >= len(a.Ports) || int(a.Ports[j]) != p {
+				return false, "Ports misses or misorders port " + strconv.Itoa(p)
+			}
+			j++
+		}
+	}
+	if j != len(a.Ports) {
+		return false, "Ports lists a port outside the set or twice"
+	}
+	var as []net.Addr
+	var err error
+	if p, msg := vCatch(func() { as, err = a.addrs() }); p {
+		return false, "panic: " + msg
+	}
+	if err != nil {
+		return false, "addrs() failed"
+	}
+	return c19CheckAddrList(as, a.Ports, r.refIP, r.refZone, dests)
+}
+
+// what the generator wrote down about the host part against what the reference says (a broken premise of the case, not a
+// verdict on the code: reported in the output, counted by the driver)
+func c19Premise(c c19Case, r *c19Srv) string {
+	switch c.ExpErr {
+	case "ok":
+		if r.refk != "" {
+			return "reference fails (" + r.refk + ") on a host the generator takes for valid"
+		}
+	case "split", "resolve":
+		if r.refk != c.ExpErr {
+			return "reference gives '" + r.refk + "' where the generator expects a " + c.ExpErr + " error"
+		}
+	}
+	if r.refk == "" {
+		if c.Host != r.refHost {
+			return "SplitHostPort gives host " + r.refHost + ", the generator meant " + c.Host
+		}
+		if len(c.Exp) > 0 {
+			hit := false
+			for _, e := range c.Exp {
+				b, _ := hex.DecodeString(e)
+				if r.refIP.Equal(net.IP(b)) {
+					hit = true
+				}
+			}
+			if !hit {
+				return "reference resolves the host to " + r.refIP.String() + ", none of the generator's addresses"
+			}
+		}
+	}
+	return ""
+}
+
+func c19SrvDump(r *c19Srv, res map[string]any) {
+	res["refk"] = r.refk
+	res["rip"] = hex.EncodeToString(r.refIP)
+	res["rzone"] = hex.EncodeToString([]byte(r.refZone))
+	res["errk"] = r.errk
+	if r.addr != nil {
+		res["ip"] = hex.EncodeToString(r.addr.IP)
+	} else {
+		res["ip"] = ""
+	}
+}
+
+func c19Addr(c c19Case, res map[string]any) {
+	hp := ""
+	if c.HP != nil {
+		hp = *c.HP
+	}
+	r := c19Resolve(hp, c.Ports, c.DNS)
+	dests := &c19Dests{}
+	ok, why := c19SrvVerdict(c, r, dests)
+	c19SrvDump(r, res)
+	res["premise"] = c19Premise(c, r)
+	if r.panicked {
+		res["panic"] = true
+	}
+	// raw observations for the model: Ports and the ports of addrs() as order-sensitive checksums, the distinct (IP, zone) of addrs()
+	np, na := 0, 0
+	var ph, ah [2]uint64
+	if r.addr != nil && !r.panicked {
+		np = len(r.addr.Ports)
+		ph = c19PortsHash(r.addr.Ports)
+		vCatch(func() {
+			as, _ := r.addr.addrs()
+			na = len(as)
+			aps := make([]uint16, 0, len(as))
+			for _, a := range as {
+				if ua, isUDP := a.(*net.UDPAddr); isUDP && ua != nil && ua.Port >= 0 && ua.Port <= 65535 {
+					aps = append(aps, uint16(ua.Port))
+				}
+			}
+			if len(aps) != len(as) {
+				na = -1
+			}
+			ah = c19PortsHash(aps)
+		})
+	}
+	res["np"], res["pa"], res["pb"] = np, ph[0], ph[1]
+	res["na"], res["aa"], res["ab"] = na, ah[0], ah[1]
+	res["dtab"] = dests.table()
+	res["ok"] = ok
+	res["why"] = why
+}
+
 // ------------------------------------------------------------------ hop harness
 
 type c19Timeout struct{}
@@ -401,6 +779,7 @@ func (c19SockErr) Error() string { return "socket call failed (scripted)" }
 type c19In struct {
 	pkt     int64
 	timeout bool
+	port    int // source port of the datagram
 }
 
 type c19World struct {
@@ -421,6 +800,9 @@ type c19World struct {
 	nextPkt  int64
 	nextWr   int64
 	nextRid  int
+	srvIP    net.IP   // the server IP as resolved by the reference
+	srvZone  string
+	dests    c19Dests // distinct (IP bytes, zone) destinations of the socket writes
 }
 
 func (w *c19World) ev(e ...any) { w.log = append(w.log, e) } // caller holds w.mu
@@ -435,6 +817,7 @@ type c19Sock struct {
 	entryHanded int // value of handed at the receiver's latest ReadFrom entry
 	pushed      int
 	dead        bool // ReadFrom has returned a permanent error: the receiver goroutine exits and never comes back
+	srcPort     int  // the server port this socket's traffic was last addressed to (-1: not known)
 }
 
 func (s *c19Sock) ReadFrom(b []byte) (int, net.Addr, error) {
@@ -462,7 +845,9 @@ func (s *c19Sock) ReadFrom(b []byte) (int, net.Addr, error) {
 			}
 			w.ev("A", s.id, in.pkt)
 			binary.BigEndian.PutUint64(b, uint64(in.pkt))
-			return 8, &net.UDPAddr{IP: net.IPv4(10, 9, 8, 7), Port: 1}, nil
+			// the datagram comes from the server: its IP, and the port this socket's packets were addressed to (the server
+			// answers from the port it was spoken to on), which after a hop is NOT the conn's current target any more
+			return 8, &net.UDPAddr{IP: append(net.IP(nil), w.srvIP...), Port: in.port}, nil
 		}
 		w.cond.Wait()
 	}
@@ -473,20 +858,26 @@ func (s *c19Sock) WriteTo(b []byte, addr net.Addr) (int, error) {
 	w.mu.Lock()
 	defer w.mu.Unlock()
 	ua, _ := addr.(*net.UDPAddr)
-	port, ipok := -1, 0
+	port, ipok, di := -1, 0, -1
 	if ua != nil {
 		port = ua.Port
-		if ua.IP.Equal(net.IPv4(127, 0, 0, 1)) {
+		// the destination is the server: same IP (net.IP.Equal: 4-byte and 16-byte forms of one IPv4 address are equal),
+		// and no zone the server address does not have
+		if ua.IP.Equal(w.srvIP) && c19ZoneOK(ua.Zone, w.srvZone) {
 			ipok = 1
 		}
+		di = w.dests.index(ua.IP, ua.Zone)
 	}
 	var d int64 = -1
 	if len(b) == 8 {
 		d = int64(binary.BigEndian.Uint64(b))
 	}
-	w.ev("W", s.id, port, d, ipok)
+	w.ev("W", s.id, port, d, ipok, di)
 	if !s.open {
 		return 0, net.ErrClosed
+	}
+	if ua != nil {
+		s.srcPort = port
 	}
 	return len(b), nil
 }
@@ -560,7 +951,7 @@ func (w *c19World) listen() (net.PacketConn, error) {
 		w.ev("L", 0, -1)
 		return nil, errors.New("listen failed (scripted)")
 	}
-	s := &c19Sock{w: w, id: len(w.socks), open: true}
+	s := &c19Sock{w: w, id: len(w.socks), open: true, srcPort: -1}
 	w.socks = append(w.socks, s)
 	w.ev("L", 1, s.id)
 	return s, nil
@@ -614,6 +1005,12 @@ func (w *c19World) inject(u *udpHopPacketConn, role string, timeout bool) {
 	defer func() { <-w.injSem }()
 	u.connMutex.RLock()
 	id := -1
+	curID, target := c19SockID(u.currentConn), -1
+	if u.addrIndex >= 0 && u.addrIndex < len(u.Addrs) {
+		if ua, isUDP := u.Addrs[u.addrIndex].(*net.UDPAddr); isUDP && ua != nil {
+			target = ua.Port
+		}
+	}
 	switch role {
 	case "cur":
 		id = c19SockID(u.currentConn)
@@ -625,6 +1022,9 @@ func (w *c19World) inject(u *udpHopPacketConn, role string, timeout bool) {
 	u.connMutex.RUnlock()
 	w.mu.Lock()
 	defer w.mu.Unlock()
+	if curID >= 0 && curID < len(w.socks) && w.socks[curID].srcPort < 0 {
+		w.socks[curID].srcPort = target // the port addressed while that socket was (seen as) the current one
+	}
 	if id < 0 || id >= len(w.socks) {
 		return
 	}
@@ -633,7 +1033,10 @@ func (w *c19World) inject(u *udpHopPacketConn, role string, timeout bool) {
 		w.ev("D", s.id) // datagram for a closed socket: dropped by the (fake) kernel
 		return
 	}
-	in := c19In{timeout: timeout}
+	in := c19In{timeout: timeout, port: s.srcPort}
+	if in.port < 0 {
+		in.port = target // nothing is known about that socket's traffic: the most favourable source there is
+	}
 	if !timeout {
 		in.pkt = w.nextPkt
 		w.nextPkt++
@@ -666,12 +1069,42 @@ func (w *c19World) inject(u *udpHopPacketConn, role string, timeout bool) {
 }
 
 func c19Hop(t *testing.T, c c19Case, res map[string]any) {
-	addr, err := ResolveUDPHopAddr("127.0.0.1:" + c.Ports)
-	if err != nil {
-		t.Fatalf("bad ports in hop case: %v", err)
+	if c.HP == nil {
+		// a replay file from before histories carried a server address
+		hp := "127.0.0.1"
+		c.HP, c.Host, c.ExpErr, c.Exp = &hp, hp, "ok", []string{"7f000001"}
 	}
-	ref, _ := c19Ref(c.Ports)
-	w := &c19World{fail: map[int]bool{}, cerr: map[int]bool{}, serr: map[int]bool{}}
+	srv := c19Resolve(*c.HP, c.Ports, c.DNS)
+	c19SrvDump(srv, res)
+	res["premise"] = c19Premise(c, srv)
+	ref, valid := c19Ref(c.Ports)
+	if !valid || srv.refk != "" {
+		t.Fatalf("bad hop case: address %q is not a valid hop address by the reference", srv.full)
+	}
+	w := &c19World{fail: map[int]bool{}, cerr: map[int]bool{}, serr: map[int]bool{}, srvIP: srv.refIP, srvZone: srv.refZone}
+	sok, swhy := c19SrvVerdict(c, srv, nil)
+	if srv.addr == nil || srv.errk != "" || srv.panicked {
+		// no hop address to build a conn from: that alone is the verdict
+		res["noaddr"] = true
+		res["log"] = w.log
+		res["census"] = [][2]int{}
+		res["dtab"] = w.dests.table()
+		res["ok"] = false
+		res["why"] = swhy
+		if srv.panicked {
+			res["panic"] = true
+		}
+		return
+	}
+	addr := srv.addr
+	refPorts := make([]uint16, 0, 16)
+	for p := 0; p < 65536; p++ {
+		if ref[p] {
+			refPorts = append(refPorts, uint16(p))
+		}
+	}
+	// a hop address that is wrong in some other way (IP, Ports, the list of addrs()): the verdict is negative already; the
+	// history is run all the same and shows where the packets go
 	w.cond = sync.NewCond(&w.mu)
 	for _, f := range c.Fail {
 		w.fail[f] = true
@@ -695,6 +1128,9 @@ func c19Hop(t *testing.T, c c19Case, res map[string]any) {
 		}
 		vmu.Unlock()
 	}
+	if !sok {
+		fail("hop address: " + swhy)
+	}
 	ctorErr := false
 	panicked, pmsg := vCatch(func() {
 		synctest.Test(t, func(t *testing.T) {
@@ -706,6 +1142,10 @@ func c19Hop(t *testing.T, c c19Case, res map[string]any) {
 				return
 			}
 			u := pc.(*udpHopPacketConn)
+			// the conn's address list: exactly one (server IP, port) per port of the set
+			if aok, awhy := c19CheckAddrList(u.Addrs, refPorts, srv.refIP, srv.refZone, nil); !aok {
+				fail("conn.Addrs: " + awhy)
+			}
 			var wg sync.WaitGroup
 			// shut the conn down by force if its own Close has not done so (hopLoop and blocked readers would
 			// otherwise keep the bubble alive for ever); reports whether that was necessary
@@ -865,6 +1305,34 @@ func c19Hop(t *testing.T, c c19Case, res map[string]any) {
 					fail("ReadFrom blocks after Close had returned")
 				}
 			}
+			// a ReadFrom that must not block because the queue holds an item for it (the reader catching up): made on a goroutine
+			// of its own and given until the whole bubble is at rest (only then does the fake clock move).  A ReadFrom that is
+			// still blocked then has thrown away what was queued, or will never see it: that is a verdict, and the reader stops
+			// catching up; a plain doRead would sit there for ever while the hop timer keeps the bubble alive.  The blocked call
+			// keeps the read semaphore until Close wakes it.
+			var drainStuck atomic.Bool
+			boundedRead := func() bool {
+				if drainStuck.Load() {
+					return false
+				}
+				done := make(chan struct{})
+				wg.Add(1)
+				go func() {
+					defer wg.Done()
+					doRead()
+					close(done)
+				}()
+				rest := time.NewTimer(time.Millisecond)
+				defer rest.Stop()
+				select {
+				case <-done:
+					return true
+				case <-rest.C:
+					drainStuck.Store(true)
+					fail("ReadFrom blocks although the receive queue held a packet for it: queued packets were discarded, not delivered")
+					return false
+				}
+			}
 			tm := func(v int64) time.Time {
 				if v == 0 {
 					return time.Time{}
@@ -893,7 +1361,9 @@ func c19Hop(t *testing.T, c c19Case, res map[string]any) {
 				case "drainq":
 					// the reader catches up: read until V items are left in the queue
 					for n := len(u.recvQueue) - int(op.V); n > 0; n-- {
-						doRead()
+						if !boundedRead() {
+							break
+						}
 					}
 				case "timeout":
 					w.inject(u, op.Role, true)
@@ -938,11 +1408,13 @@ func c19Hop(t *testing.T, c c19Case, res map[string]any) {
 			drained := c.Drain && !w.closeRet
 			if drained {
 				for n := len(u.recvQueue); n > 0; n-- {
-					doRead()
+					if !boundedRead() {
+						break
+					}
 				}
 				synctest.Wait()
 				w.snap(u, true)
-				drainedAll = true
+				drainedAll = !drainStuck.Load()
 			}
 			if c.Blk && !w.closeRet {
 				// one more ReadFrom parked in its select (or served from the queue) when Close comes
@@ -1013,16 +1485,18 @@ func c19Hop(t *testing.T, c c19Case, res map[string]any) {
 		})
 	})
 	if bodyPanic {
-		panicked, pmsg = true, why[len("panic: "):]
+		panicked, pmsg = true, strings.TrimPrefix(why, "panic: ")
 	}
 	if panicked {
 		res["panic"] = true
 		res["ok"] = false
 		res["why"] = "panic: " + pmsg
 		res["log"] = w.log
+		res["dtab"] = w.dests.table()
 		return
 	}
 	res["ctor_err"] = ctorErr
+	res["dtab"] = w.dests.table()
 	res["log"] = w.log
 	res["nports"] = len(addr.Ports)
 	res["census"] = census
